@@ -118,6 +118,25 @@ def segment_listeners(ctx: Ctx, scale=1.0):
                                "(a notification stamped with another time than the simulator time, an event scheduled by a listener that got another time than stamp + delay, "
                                "an event executed out of order / twice / not at all within its segment, or a clock that went back)",
                           {"trace": rj.trace, "explained": rj.upto})
+        if not rej and not getattr(ctx, "_rl_selftest_done", False):
+            # binding self-test: one recorded field corrupted (the time a STOP listener's event got / the STOP stamp) must be rejected
+            import copy
+            bad = []
+            for t in trs:
+                for k, e in enumerate(t):
+                    if e["a"] == "Stop" and e["ts"] > 0:
+                        t2 = copy.deepcopy(t); t2[k]["ts"] -= 1; bad.append(t2)
+                        if k + 1 < len(t) and t[k + 1]["a"] == "Sched":
+                            t3 = copy.deepcopy(t); t3[k + 1]["t"] += 1; bad.append(t3)
+                        break
+                if len(bad) >= 4:
+                    break
+            if bad:
+                rj2, _ = traces.validate("TraceRunListeners_gen", "TraceRunListeners_gen.cfg", bad, extra_files={"TraceRunListeners_gen.tla": tmod, "TraceRunListeners_gen.cfg": tcfg}, timeout=600)
+                if len(rj2) != len(bad):
+                    raise tlc.MachineryError(f"self-test: {len(bad) - len(rj2)} of {len(bad)} corrupted segmented-listener traces were accepted by TraceRunListeners.tla")
+                ctx.binding["run_listeners_corrupted_traces_rejected"] = len(bad)
+                ctx._rl_selftest_done = True
         for t in trs:
             w = None
             for e in t:
